@@ -600,3 +600,578 @@ Proof.
     + apply step_cache_in in H. tauto.
     + tauto.
 Qed.
+
+(** * The loop invariant *)
+Section Invariant.
+  Variable m : nat.
+  Variable ttls : list (list entry).
+  Hypothesis Hok : ttl_ok ttls.
+
+  Lemma ttl_uniq i i' p t t' :
+    In (p, t) (nth i ttls []) -> In (p, t') (nth i' ttls []) -> i = i' /\ t = t'.
+  Proof. apply concat_uniq. exact (proj2 Hok). Qed.
+
+  Lemma ttl_block_nodup i : NoDup (map fst (nth i ttls [])).
+  Proof. apply concat_block_nodup. exact (proj2 Hok). Qed.
+
+  Lemma ttl_pos i p t : In (p, t) (nth i ttls []) -> (1 <= t)%Z.
+  Proof.
+    intros H. destruct Hok as [Hall _]. rewrite Forall_forall in Hall.
+    apply (Hall (p, t)). apply (in_nth_concat ttls _ i). exact H.
+  Qed.
+
+  Lemma ttl_in_range i p t : In (p, t) (nth i ttls []) -> (i < length ttls)%nat.
+  Proof.
+    intros H. destruct (Nat.lt_ge_cases i (length ttls)) as [Hlt|Hge]; [exact Hlt|].
+    rewrite nth_overflow in H by exact Hge. destruct H.
+  Qed.
+
+  (** Entries seen so far: all of blocks [< k], and the prefix [done] of block [k]. *)
+  Definition avail (k : nat) (done : list entry) (i : nat) (p : N) (t : Z) : Prop :=
+    ((i < k)%nat /\ In (p, t) (nth i ttls [])) \/ (i = k /\ In (p, t) done).
+
+  (** [clk] is the number of decrements applied so far to an entry created in block 0. *)
+  Record Inv (k : nat) (done : list entry) (clk : Z) (st : state) : Prop := {
+    inv_len : (length (st_cache st) <= m)%nat;
+    inv_cache : forall p r, In (p, r) (st_cache st) ->
+      exists i t, avail k done i p t /\ r = (t + Z.of_nat i - clk)%Z /\ (1 <= r)%Z /\
+                  ch_get p (st_heights st) = i;
+    inv_cnd : NoDup (map fst (st_cache st));
+    inv_slen : length (st_sched st) = length ttls;
+    inv_sched : forall i p, In p (nth i (st_sched st) []) ->
+      exists t, avail k done i p t /\ (Z.of_nat i + t <= clk)%Z;
+    inv_snd : NoDup (concat (st_sched st));
+    inv_sorted : forall j, Sorted N.le (nth j (st_sched st) [])
+  }.
+
+  Lemma avail_global k done i p t :
+    incl done (nth k ttls []) -> avail k done i p t -> In (p, t) (nth i ttls []).
+  Proof. intros Hincl [[_ H]|[-> H]]; [exact H|apply Hincl; exact H]. Qed.
+
+  Lemma avail_mono k done e i p t : avail k done i p t -> avail k (done ++ [e]) i p t.
+  Proof.
+    intros [H|[H1 H2]]; [left; exact H|right]. split; [exact H1|]. apply in_or_app. left. exact H2.
+  Qed.
+
+  Lemma avail_lt k done i p t :
+    incl done (nth k ttls []) -> (k < length ttls)%nat \/ done = [] ->
+    avail k done i p t -> (i < length ttls)%nat.
+  Proof.
+    intros Hincl Hk Hav. apply (ttl_in_range i p t). exact (avail_global k done i p t Hincl Hav).
+  Qed.
+
+  Lemma Inv_mono k done e clk st : Inv k done clk st -> Inv k (done ++ [e]) clk st.
+  Proof.
+    intros [H1 H2 H3 H4 H5 H6 H7]. constructor; try assumption.
+    - intros p r Hin. destruct (H2 p r Hin) as (i & t & Hav & Hr). exists i, t.
+      split; [apply avail_mono; exact Hav|exact Hr].
+    - intros i p Hin. destruct (H5 i p Hin) as (t & Hav & Hr). exists t.
+      split; [apply avail_mono; exact Hav|exact Hr].
+  Qed.
+
+  (** ** Expiry phase *)
+  Lemma expire_facts k st :
+    Inv k [] (Z.of_nat k - 1) st ->
+    let c := st_cache st in let ch := st_heights st in let sch := st_sched st in
+    let cs := fold_left move (deadf c) (ch, sch) in
+    length (snd cs) = length sch /\
+    (forall j x, In x (nth j (snd cs) []) <->
+                 In x (nth j sch []) \/ (In x (deadf c) /\ ch_get x ch = j)) /\
+    Permutation (concat (snd cs)) (deadf c ++ concat sch) /\
+    (forall q, ~ In q (deadf c) -> ch_get q (fst cs) = ch_get q ch) /\
+    ((forall j, Sorted N.le (nth j sch [])) -> forall j, Sorted N.le (nth j (snd cs) [])).
+  Proof.
+    intros HI c ch sch cs. apply fold_move_spec.
+    - apply deadf_nodup. exact (inv_cnd _ _ _ _ HI).
+    - intros p Hp. apply in_deadf in Hp. destruct Hp as (r & Hin & _).
+      destruct (inv_cache _ _ _ _ HI p r Hin) as (i & t & Hav & _ & _ & Hget).
+      fold ch in Hget. rewrite Hget. unfold sch. rewrite (inv_slen _ _ _ _ HI).
+      apply (avail_lt k [] i p t); [intros x []|right; reflexivity|exact Hav].
+  Qed.
+
+  (** A dead entry: its deletion block is exactly [k]. *)
+  Lemma dead_entry k st p :
+    Inv k [] (Z.of_nat k - 1) st -> In p (deadf (st_cache st)) ->
+    exists i t, avail k [] i p t /\ (Z.of_nat i + t = Z.of_nat k)%Z /\
+                ch_get p (st_heights st) = i.
+  Proof.
+    intros HI Hp. apply in_deadf in Hp. destruct Hp as (r & Hin & Hd).
+    destruct (inv_cache _ _ _ _ HI p r Hin) as (i & t & Hav & Hr & Hpos & Hget).
+    exists i, t. split; [exact Hav|]. split; [|exact Hget].
+    rewrite (dec64_pos r Hpos) in Hd. lia.
+  Qed.
+
+  Lemma inv_expire k st :
+    Inv k [] (Z.of_nat k - 1) st -> Inv k [] (Z.of_nat k) (expire st).
+  Proof.
+    intros HI. destruct (expire_facts k st HI) as (F1 & F2 & F3 & F4 & F5).
+    rewrite expire_spec. constructor; cbn [st_cache st_heights st_sched].
+    - eapply Nat.le_trans; [apply keepf_length|exact (inv_len _ _ _ _ HI)].
+    - intros p r' Hin. apply in_keepf in Hin. destruct Hin as (r & Hin & Hr' & Hnz).
+      destruct (inv_cache _ _ _ _ HI p r Hin) as (i & t & Hav & Hr & Hpos & Hget).
+      rewrite (dec64_pos r Hpos) in Hr'. exists i, t. split; [exact Hav|].
+      split; [lia|]. split; [lia|]. rewrite F4; [exact Hget|].
+      intros Hd. apply in_deadf in Hd. destruct Hd as (r2 & Hin2 & Hd2).
+      assert (r2 = r) by exact (nodup_fst_fun _ p r2 r (inv_cnd _ _ _ _ HI) Hin2 Hin).
+      subst r2. rewrite (dec64_pos r Hpos) in Hd2. lia.
+    - apply keepf_nodup. exact (inv_cnd _ _ _ _ HI).
+    - rewrite F1. exact (inv_slen _ _ _ _ HI).
+    - intros j x Hx. apply F2 in Hx. destruct Hx as [Hx|[Hx Hg]].
+      + destruct (inv_sched _ _ _ _ HI j x Hx) as (t & Hav & Hle). exists t.
+        split; [exact Hav|lia].
+      + destruct (dead_entry k st x HI Hx) as (i & t & Hav & Hit & Hget).
+        rewrite Hg in Hget. subst i. exists t.
+        split; [exact Hav|lia].
+    - apply (Permutation_NoDup (Permutation_sym F3)). apply NoDup_app_intro.
+      + apply deadf_nodup. exact (inv_cnd _ _ _ _ HI).
+      + exact (inv_snd _ _ _ _ HI).
+      + intros x Hd Hs. destruct (dead_entry k st x HI Hd) as (i & t & Hav & Hit & _).
+        apply in_concat_nth in Hs. destruct Hs as [j Hj].
+        destruct (inv_sched _ _ _ _ HI j x Hj) as (t' & Hav' & Hle).
+        assert (Hnil : incl (@nil entry) (nth k ttls [])) by (intros y []).
+        destruct (ttl_uniq i j x t t' (avail_global _ _ _ _ _ Hnil Hav)
+                                      (avail_global _ _ _ _ _ Hnil Hav')) as [-> ->].
+        lia.
+    - apply F5. exact (inv_sorted _ _ _ _ HI).
+  Qed.
+
+  (** ** Insertion phase *)
+  Lemma inv_add k done p t todo c ch sch c0 ch0 :
+    nth k ttls [] = done ++ (p, t) :: todo ->
+    Inv k done (Z.of_nat k) (mkState c ch sch) ->
+    (forall x, In x c0 -> In x c) -> NoDup (map fst c0) -> (length c0 < m)%nat ->
+    (forall p', In p' (map fst c0) -> ch_get p' ch0 = ch_get p' ch) ->
+    Inv k (done ++ [(p, t)]) (Z.of_nat k) (mkState (c0 ++ [(p, t)]) (ch_set p k ch0) sch).
+  Proof.
+    intros Hblk HI Hsub Hnd0 Hlen0 Hch0.
+    assert (Hincl : incl done (nth k ttls [])).
+    { rewrite Hblk. intros x Hx. apply in_or_app. left. exact Hx. }
+    assert (Hpt : In (p, t) (nth k ttls [])).
+    { rewrite Hblk. apply in_or_app. right. left. reflexivity. }
+    assert (Hfresh : ~ In p (map fst c)).
+    { intros Hin. apply in_map_iff in Hin. destruct Hin as [[p0 r] [Heq Hin]].
+      cbn [fst] in Heq. subst p0.
+      destruct (inv_cache _ _ _ _ HI p r Hin) as (i & t' & Hav & _).
+      pose proof (avail_global _ _ _ _ _ Hincl Hav) as Hg.
+      destruct (ttl_uniq i k p t' t Hg Hpt) as [-> ->].
+      destruct Hav as [[Hlt _]|[_ Hd]]; [lia|].
+      pose proof (ttl_block_nodup k) as Hbn. rewrite Hblk, map_app in Hbn.
+      apply NoDup_app_inv in Hbn. destruct Hbn as (_ & _ & Hdisj).
+      apply (Hdisj p (in_fst _ _ _ Hd)). left. reflexivity. }
+    assert (Hsub1 : forall q, In q (map fst c0) -> In q (map fst c)).
+    { intros q Hq. apply in_map_iff in Hq. destruct Hq as [[q0 r] [Heq Hin]].
+      cbn [fst] in Heq. subst q0. exact (in_fst _ _ _ (Hsub _ Hin)). }
+    constructor; cbn [st_cache st_heights st_sched].
+    - rewrite app_length. cbn [length]. lia.
+    - intros p' r Hin. apply in_app_or in Hin. destruct Hin as [Hin|[Hin|[]]].
+      + destruct (inv_cache _ _ _ _ HI p' r (Hsub _ Hin)) as (i & t' & Hav & Hr & Hpos & Hget).
+        cbn [st_heights] in Hget.
+        exists i, t'. split; [apply avail_mono; exact Hav|]. split; [exact Hr|].
+        split; [exact Hpos|]. rewrite ch_get_set_other.
+        * rewrite Hch0; [exact Hget|exact (in_fst _ _ _ Hin)].
+        * intros ->. apply Hfresh. apply Hsub1. exact (in_fst _ _ _ Hin).
+      + inversion Hin; subst p' r. exists k, t. split.
+        * right. split; [reflexivity|]. apply in_or_app. right. left. reflexivity.
+        * split; [lia|]. split; [exact (ttl_pos k p t Hpt)|]. apply ch_get_set_same.
+    - rewrite map_app. cbn [map fst]. apply NoDup_app_intro.
+      + exact Hnd0.
+      + constructor; [intros []|constructor].
+      + intros x Hx [Hx2|[]]. subst x. apply Hfresh. apply Hsub1. exact Hx.
+    - exact (inv_slen _ _ _ _ HI).
+    - intros i x Hx. destruct (inv_sched _ _ _ _ HI i x Hx) as (t' & Hav & Hle).
+      exists t'. split; [apply avail_mono; exact Hav|exact Hle].
+    - exact (inv_snd _ _ _ _ HI).
+    - exact (inv_sorted _ _ _ _ HI).
+  Qed.
+
+  Lemma inv_insert k done e todo st :
+    nth k ttls [] = done ++ e :: todo ->
+    Inv k done (Z.of_nat k) st -> Inv k (done ++ [e]) (Z.of_nat k) (insert1 m k st e).
+  Proof.
+    intros Hblk HI. destruct e as [p t]. destruct st as [c ch sch].
+    unfold insert1. cbn [st_cache st_heights st_sched fst snd].
+    destruct (Nat.ltb (length c) m) eqn:Hlt.
+    - apply (inv_add k done p t todo c ch sch c ch Hblk HI).
+      + intros x Hx. exact Hx.
+      + exact (inv_cnd _ _ _ _ HI).
+      + lia.
+      + intros p' _. reflexivity.
+    - destruct (evict_first t c) as [[q c']|] eqn:Hev.
+      + destruct (evict_first_spec _ _ _ _ Hev) as (l1 & rq & l2 & Hc & Hc').
+        pose proof (inv_cnd _ _ _ _ HI) as Hnd. cbn [st_cache] in Hnd.
+        rewrite Hc, map_app in Hnd. cbn [map fst] in Hnd.
+        apply NoDup_remove in Hnd. destruct Hnd as [Hnd Hq]. rewrite <- map_app in Hnd, Hq.
+        pose proof (inv_len _ _ _ _ HI) as Hlen. cbn [st_cache] in Hlen.
+        rewrite Hc, app_length in Hlen. cbn [length] in Hlen.
+        apply (inv_add k done p t todo c ch sch c' (ch_del q ch) Hblk HI).
+        * intros x Hx. rewrite Hc. rewrite Hc' in Hx. apply in_app_or in Hx.
+          apply in_or_app. destruct Hx as [Hx|Hx]; [left; exact Hx|right; right; exact Hx].
+        * rewrite Hc'. exact Hnd.
+        * rewrite Hc', app_length. lia.
+        * intros p' Hp'. apply ch_get_del_other. intros ->. apply Hq. rewrite <- Hc'. exact Hp'.
+      + apply Inv_mono. exact HI.
+  Qed.
+
+  Lemma inv_insert_all k todo : forall done st,
+    nth k ttls [] = done ++ todo ->
+    Inv k done (Z.of_nat k) st ->
+    Inv k (done ++ todo) (Z.of_nat k) (fold_left (insert1 m k) todo st).
+  Proof.
+    induction todo as [|e todo IH]; intros done st Hblk HI.
+    - rewrite app_nil_r. exact HI.
+    - cbn [fold_left]. replace (done ++ e :: todo) with ((done ++ [e]) ++ todo)
+        by (rewrite <- app_assoc; reflexivity).
+      apply IH.
+      + rewrite <- app_assoc. exact Hblk.
+      + apply (inv_insert k done e todo st Hblk HI).
+  Qed.
+
+  Lemma inv_shift k clk st : Inv k (nth k ttls []) clk st -> Inv (S k) [] clk st.
+  Proof.
+    assert (Hav : forall i p t, avail k (nth k ttls []) i p t -> avail (S k) [] i p t).
+    { intros i p t [[Hlt Hin]|[-> Hin]]; left; (split; [lia|exact Hin]). }
+    intros [H1 H2 H3 H4 H5 H6 H7]. constructor; try assumption.
+    - intros p r Hin. destruct (H2 p r Hin) as (i & t & Ha & Hr). exists i, t.
+      split; [apply Hav; exact Ha|exact Hr].
+    - intros i p Hin. destruct (H5 i p Hin) as (t & Ha & Hr). exists t.
+      split; [apply Hav; exact Ha|exact Hr].
+  Qed.
+
+  Lemma inv_step k st :
+    Inv k [] (Z.of_nat k - 1) st ->
+    Inv (S k) [] (Z.of_nat (S k) - 1) (step m k (nth k ttls []) st).
+  Proof.
+    intros HI. replace (Z.of_nat (S k) - 1)%Z with (Z.of_nat k) by lia.
+    apply inv_shift. unfold step.
+    apply (inv_insert_all k (nth k ttls []) [] (expire st) eq_refl).
+    apply inv_expire. exact HI.
+  Qed.
+
+  Lemma inv_init : Inv 0 [] (Z.of_nat 0 - 1) (init_state (length ttls)).
+  Proof.
+    unfold init_state. constructor; cbn [st_cache st_heights st_sched].
+    - cbn [length]. lia.
+    - intros p r [].
+    - constructor.
+    - apply repeat_length.
+    - intros i p Hin. rewrite nth_repeat_nil in Hin. destruct Hin.
+    - rewrite concat_repeat_nil. constructor.
+    - intros j. rewrite nth_repeat_nil. constructor.
+  Qed.
+
+  Lemma inv_state_at k :
+    (k <= length ttls)%nat -> Inv k [] (Z.of_nat k - 1) (state_at m ttls k).
+  Proof.
+    induction k as [|k IH]; intros Hk.
+    - exact inv_init.
+    - rewrite state_at_S by lia. apply inv_step. apply IH. lia.
+  Qed.
+
+  (** ** T1 *)
+  Lemma sched_subset_proof :
+    length (schedule m ttls) = length ttls /\
+    (forall i p, In p (nth i (schedule m ttls) []) ->
+       exists t, In (p, t) (nth i ttls []) /\
+                 (Z.of_nat i + t < Z.of_nat (length ttls))%Z) /\
+    NoDup (concat (schedule m ttls)) /\
+    (forall i, StronglySorted N.lt (nth i (schedule m ttls) [])).
+  Proof.
+    pose proof (inv_state_at (length ttls) (Nat.le_refl _)) as HI.
+    rewrite schedule_state_at.
+    assert (Hnil : incl (@nil entry) (nth (length ttls) ttls [])) by (intros y []).
+    split; [exact (inv_slen _ _ _ _ HI)|]. split.
+    - intros i p Hin. destruct (inv_sched _ _ _ _ HI i p Hin) as (t & Hav & Hle).
+      exists t. split; [exact (avail_global _ _ _ _ _ Hnil Hav)|lia].
+    - split; [exact (inv_snd _ _ _ _ HI)|]. intros i. apply sorted_le_lt.
+      + apply Sorted_StronglySorted; [intros x y z; apply N.le_trans|].
+        exact (inv_sorted _ _ _ _ HI i).
+      + apply NoDup_concat_nth. exact (inv_snd _ _ _ _ HI).
+  Qed.
+
+  (** ** T2 *)
+  (** A finally scheduled entry alive at block [b] is in the cache after block [b]. *)
+  Lemma alive_in_cache b i p t :
+    (b < length ttls)%nat ->
+    In p (nth i (schedule m ttls) []) -> In (p, t) (nth i ttls []) -> alive_at i t b ->
+    In p (map fst (st_cache (state_at m ttls (S b)))).
+  Proof.
+    intros Hb Hs Hin [Hib Hbt].
+    pose proof (inv_state_at (S b) Hb) as HI.
+    unfold schedule in Hs. rewrite (run_split m ttls (S b)) in Hs by lia.
+    apply in_nth_concat, run_future in Hs. destruct Hs as [Hs|[Hs|Hs]].
+    - exfalso. apply in_concat_nth in Hs. destruct Hs as [j Hj].
+      destruct (inv_sched _ _ _ _ HI j p Hj) as (t' & Hav & Hle).
+      assert (Hnil : incl (@nil entry) (nth (S b) ttls [])) by (intros y []).
+      destruct (ttl_uniq j i p t' t (avail_global _ _ _ _ _ Hnil Hav) Hin) as [-> ->]. lia.
+    - exact Hs.
+    - exfalso. apply in_map_iff in Hs. destruct Hs as [[p0 t'] [Heq Hs]]. cbn [fst] in Heq.
+      subst p0. apply in_concat_skipn in Hs. destruct Hs as (j & Hj & Hjin).
+      destruct (ttl_uniq j i p t' t Hjin Hin) as [-> ->]. lia.
+  Qed.
+
+  Lemma sched_memory_proof b (l : list N) :
+    NoDup l ->
+    (forall p, In p l -> exists i t,
+        In p (nth i (schedule m ttls) []) /\ In (p, t) (nth i ttls []) /\ alive_at i t b) ->
+    (length l <= m)%nat.
+  Proof.
+    intros Hnd Hall. destruct (Nat.lt_ge_cases b (length ttls)) as [Hb|Hb].
+    - pose proof (inv_state_at (S b) Hb) as HI.
+      eapply Nat.le_trans; [|exact (inv_len _ _ _ _ HI)].
+      rewrite <- (map_length fst). apply NoDup_incl_length'; [exact Hnd|].
+      intros p Hp. destruct (Hall p Hp) as (i & t & Hs & Hin & Hal).
+      exact (alive_in_cache b i p t Hb Hs Hin Hal).
+    - destruct l as [|p l]; [cbn [length]; lia|]. exfalso.
+      destruct (Hall p (or_introl eq_refl)) as (i & t & Hs & Hin & [Hib Hbt]).
+      destruct sched_subset_proof as (_ & Hsub & _).
+      destruct (Hsub i p Hs) as (t' & Hin' & Hlt).
+      destruct (ttl_uniq i i p t t' Hin Hin') as [_ ->]. lia.
+  Qed.
+
+  (** ** T3: a cache that never fills *)
+  Record Inv3 (k : nat) (done : list entry) (st : state) : Prop := {
+    inv3_len : (length (st_cache st) <= length (concat (firstn k ttls)) + length done)%nat;
+    inv3_all : forall i p t, avail k done i p t ->
+      In p (nth i (st_sched st) []) \/ In p (map fst (st_cache st))
+  }.
+
+  Lemma inv3_expire k st :
+    Inv k [] (Z.of_nat k - 1) st -> Inv3 k [] st -> Inv3 k [] (expire st).
+  Proof.
+    intros HI H3. destruct (expire_facts k st HI) as (F1 & F2 & F3 & F4 & F5).
+    rewrite expire_spec. constructor; cbn [st_cache st_heights st_sched].
+    - eapply Nat.le_trans; [apply keepf_length|exact (inv3_len _ _ _ H3)].
+    - intros i p t Hav. destruct (inv3_all _ _ _ H3 i p t Hav) as [Hs|Hc].
+      + left. apply F2. left. exact Hs.
+      + apply in_map_iff in Hc. destruct Hc as [[p0 r] [Heq Hc]]. cbn [fst] in Heq. subst p0.
+        destruct (inv_cache _ _ _ _ HI p r Hc) as (i' & t' & Hav' & Hr & Hpos & Hget).
+        assert (Hnil : incl (@nil entry) (nth k ttls [])) by (intros y []).
+        destruct (ttl_uniq i' i p t' t (avail_global _ _ _ _ _ Hnil Hav')
+                                       (avail_global _ _ _ _ _ Hnil Hav)) as [-> ->].
+        destruct (Z.eq_dec (dec64 r) 0) as [Hd|Hd].
+        * left. apply F2. right. split; [|exact Hget]. apply in_deadf. exists r.
+          split; [exact Hc|exact Hd].
+        * right. apply (in_fst _ p (dec64 r)). apply in_keepf. exists r.
+          split; [exact Hc|]. split; [reflexivity|exact Hd].
+  Qed.
+
+  Lemma inv3_insert k done e todo st :
+    (total_entries ttls <= m)%nat -> (k < length ttls)%nat ->
+    nth k ttls [] = done ++ e :: todo ->
+    Inv3 k done st -> Inv3 k (done ++ [e]) (insert1 m k st e).
+  Proof.
+    intros Hcap Hk Hblk H3. pose proof (inv3_len _ _ _ H3) as Hlen.
+    pose proof (concat_firstn_le ttls k Hk) as Hle. rewrite Hblk, app_length in Hle.
+    cbn [length] in Hle. unfold total_entries in Hcap.
+    unfold insert1. destruct (Nat.ltb_spec (length (st_cache st)) m) as [Hlt|Hge]; [|lia].
+    constructor; cbn [st_cache st_heights st_sched].
+    - rewrite !app_length. cbn [length]. lia.
+    - intros i p t Hav.
+      assert (Hcase : avail k done i p t \/ (p, t) = e).
+      { destruct Hav as [Hav|[Hi Hin]]; [left; left; exact Hav|].
+        apply in_app_or in Hin. destruct Hin as [Hin|[Hin|[]]].
+        - left. right. split; [exact Hi|exact Hin].
+        - right. symmetry. exact Hin. }
+      rewrite map_app, in_app_iff. destruct Hcase as [Hav'|He].
+      + destruct (inv3_all _ _ _ H3 i p t Hav') as [Hs|Hc]; [left; exact Hs|right; left; exact Hc].
+      + right. right. subst e. left. reflexivity.
+  Qed.
+
+  Lemma inv3_insert_all k todo : forall done st,
+    (total_entries ttls <= m)%nat -> (k < length ttls)%nat ->
+    nth k ttls [] = done ++ todo ->
+    Inv3 k done st -> Inv3 k (done ++ todo) (fold_left (insert1 m k) todo st).
+  Proof.
+    induction todo as [|e todo IH]; intros done st Hcap Hk Hblk H3.
+    - rewrite app_nil_r. exact H3.
+    - cbn [fold_left]. replace (done ++ e :: todo) with ((done ++ [e]) ++ todo)
+        by (rewrite <- app_assoc; reflexivity).
+      apply IH; [exact Hcap|exact Hk| |].
+      + rewrite <- app_assoc. exact Hblk.
+      + apply (inv3_insert k done e todo st Hcap Hk Hblk H3).
+  Qed.
+
+  Lemma inv3_shift k st :
+    (k < length ttls)%nat -> Inv3 k (nth k ttls []) st -> Inv3 (S k) [] st.
+  Proof.
+    intros Hk [H1 H2]. constructor.
+    - rewrite (concat_firstn_S ttls k Hk). cbn [length]. lia.
+    - intros i p t [[Hlt Hin]|[_ []]]. apply (H2 i p t).
+      destruct (Nat.eq_dec i k) as [->|Hne]; [right; split; [reflexivity|exact Hin]|].
+      left. split; [lia|exact Hin].
+  Qed.
+
+  Lemma inv3_state_at k :
+    (total_entries ttls <= m)%nat -> (k <= length ttls)%nat -> Inv3 k [] (state_at m ttls k).
+  Proof.
+    intros Hcap. induction k as [|k IH]; intros Hk.
+    - constructor.
+      + cbn. lia.
+      + intros i p t [[Hlt _]|[_ []]]. lia.
+    - rewrite state_at_S by lia. unfold step. apply inv3_shift; [lia|].
+      apply (inv3_insert_all k (nth k ttls []) [] (expire (state_at m ttls k)) Hcap);
+        [lia|reflexivity|].
+      apply inv3_expire; [apply inv_state_at; lia|apply IH; lia].
+  Qed.
+
+  Lemma sched_complete_proof :
+    (total_entries ttls <= m)%nat ->
+    forall i p t, In (p, t) (nth i ttls []) ->
+                  (Z.of_nat i + t < Z.of_nat (length ttls))%Z ->
+                  In p (nth i (schedule m ttls) []).
+  Proof.
+    intros Hcap i p t Hin Hlt.
+    pose proof (inv_state_at (length ttls) (Nat.le_refl _)) as HI.
+    pose proof (inv3_state_at (length ttls) Hcap (Nat.le_refl _)) as H3.
+    rewrite schedule_state_at.
+    assert (Hav : avail (length ttls) [] i p t).
+    { left. split; [exact (ttl_in_range i p t Hin)|exact Hin]. }
+    destruct (inv3_all _ _ _ H3 i p t Hav) as [Hs|Hc]; [exact Hs|]. exfalso.
+    apply in_map_iff in Hc. destruct Hc as [[p0 r] [Heq Hc]]. cbn [fst] in Heq. subst p0.
+    destruct (inv_cache _ _ _ _ HI p r Hc) as (i' & t' & Hav' & Hr & Hpos & _).
+    assert (Hnil : incl (@nil entry) (nth (length ttls) ttls [])) by (intros y []).
+    destruct (ttl_uniq i' i p t' t (avail_global _ _ _ _ _ Hnil Hav') Hin) as [-> ->]. lia.
+  Qed.
+
+End Invariant.
+
+(** * Decidable well-formedness, comparison function *)
+
+Lemma existsb_eqb_in x l : existsb (N.eqb x) l = true <-> In x l.
+Proof.
+  rewrite existsb_exists. split.
+  - intros (y & Hy & He). apply N.eqb_eq in He. subst y. exact Hy.
+  - intros H. exists x. split; [exact H|apply N.eqb_refl].
+Qed.
+
+Lemma nodupN_spec l : nodupN l = true <-> NoDup l.
+Proof.
+  induction l as [|x r IH].
+  - split; [constructor|reflexivity].
+  - cbn [nodupN]. rewrite andb_true_iff, negb_true_iff, IH. split.
+    + intros [Hx Hr]. constructor; [|exact Hr]. intros Hin. apply existsb_eqb_in in Hin.
+      rewrite Hin in Hx. discriminate Hx.
+    + intros Hnd. inversion Hnd as [|a l Hna Hr]; subst. split; [|exact Hr].
+      destruct (existsb (N.eqb x) r) eqn:E; [|reflexivity].
+      apply existsb_eqb_in in E. destruct (Hna E).
+Qed.
+
+Lemma ttl_okb_spec ttls : ttl_okb ttls = true <-> ttl_ok ttls.
+Proof.
+  unfold ttl_okb, ttl_ok. rewrite andb_true_iff, nodupN_spec, forallb_forall, Forall_forall.
+  split; intros [H1 H2]; (split; [|exact H2]); intros e He; specialize (H1 e He); lia.
+Qed.
+
+Lemma list_eqb_spec {A} (eqb : A -> A -> bool) :
+  (forall x y, eqb x y = true <-> x = y) ->
+  forall l1 l2, list_eqb eqb l1 l2 = true <-> l1 = l2.
+Proof.
+  intros Heq. induction l1 as [|x r1 IH]; intros [|y r2]; cbn [list_eqb].
+  - split; reflexivity.
+  - split; discriminate.
+  - split; discriminate.
+  - rewrite andb_true_iff, Heq, IH. split.
+    + intros [-> ->]. reflexivity.
+    + intros H. inversion H. split; reflexivity.
+Qed.
+
+Lemma check_schedule_spec m ttls impl :
+  check_schedule m ttls impl = true <-> impl = schedule m ttls.
+Proof.
+  unfold check_schedule. apply list_eqb_spec. apply list_eqb_spec. apply N.eqb_eq.
+Qed.
+
+(** * The counting form of the memory bound *)
+
+Lemma alive_from_in : forall T Sc i0 b p,
+  In p (alive_from i0 b T Sc) ->
+  exists j t, In p (nth j Sc []) /\ In (p, t) (nth j T []) /\ alive_at (i0 + j) t b.
+Proof.
+  induction T as [|blk T IH]; intros Sc i0 b p H; [destruct H|].
+  destruct Sc as [|s Sc]; [destruct H|]. cbn [alive_from] in H. apply in_app_or in H.
+  destruct H as [H|H].
+  - apply filter_In in H. destruct H as [Hs Hal].
+    unfold ttl_of in Hal. destruct (find (fun e => N.eqb (fst e) p) blk) as [[q t]|] eqn:F;
+      [|discriminate Hal].
+    apply find_some in F. destruct F as [Hin Hq]. cbn [fst snd] in Hq, Hal.
+    apply N.eqb_eq in Hq. subst q. exists 0%nat, t. cbn [nth].
+    split; [exact Hs|]. split; [exact Hin|]. unfold alive_atb in Hal. unfold alive_at. lia.
+  - destruct (IH Sc (S i0) b p H) as (j & t & H1 & H2 & H3). exists (S j), t. cbn [nth].
+    split; [exact H1|]. split; [exact H2|].
+    replace (i0 + S j)%nat with (S i0 + j)%nat by lia. exact H3.
+Qed.
+
+Lemma alive_from_nodup : forall T Sc i0 b,
+  NoDup (concat Sc) -> NoDup (alive_from i0 b T Sc).
+Proof.
+  induction T as [|blk T IH]; intros Sc i0 b Hnd; [constructor|].
+  destruct Sc as [|s Sc]; [constructor|]. cbn [alive_from]. cbn [concat] in Hnd.
+  apply NoDup_app_inv in Hnd. destruct Hnd as (Hs & HS & Hdisj).
+  apply NoDup_app_intro.
+  - apply NoDup_filter. exact Hs.
+  - apply IH. exact HS.
+  - intros x Hx Hx2. apply filter_In in Hx. destruct Hx as [Hx _].
+    apply alive_from_in in Hx2. destruct Hx2 as (j & t & Hj & _).
+    exact (Hdisj x Hx (in_nth_concat Sc x j Hj)).
+Qed.
+
+Lemma sched_memory_count_proof m ttls :
+  ttl_ok ttls -> forall b, (alive_count ttls (schedule m ttls) b <= m)%nat.
+Proof.
+  intros Hok b. unfold alive_count. apply (sched_memory_proof m ttls Hok b).
+  - apply alive_from_nodup. exact (proj1 (proj2 (proj2 (sched_subset_proof m ttls Hok)))).
+  - intros p Hp. apply alive_from_in in Hp. destruct Hp as (j & t & H1 & H2 & H3).
+    exists j, t. split; [exact H1|]. split; [exact H2|exact H3].
+Qed.
+
+(** [alive_count] does count every scheduled entry alive at [b] (so the bound above is not
+    vacuous): a scheduled position of block [i] whose ttl makes it alive at [b] is in the list. *)
+Lemma alive_from_complete : forall T Sc i0 b j p t,
+  NoDup (map fst (nth j T [])) ->
+  In p (nth j Sc []) -> In (p, t) (nth j T []) -> alive_at (i0 + j) t b ->
+  In p (alive_from i0 b T Sc).
+Proof.
+  induction T as [|blk T IH]; intros Sc i0 b j p t Hnd Hs Hin Hal.
+  - destruct j; destruct Hin.
+  - destruct Sc as [|s Sc]; [destruct j; destruct Hs|]. cbn [alive_from]. apply in_or_app.
+    destruct j as [|j]; cbn [nth] in Hnd, Hs, Hin.
+    + left. apply filter_In. split; [exact Hs|]. unfold ttl_of.
+      destruct (find (fun e => N.eqb (fst e) p) blk) as [[q t']|] eqn:F.
+      * apply find_some in F. destruct F as [Hin' Hq]. cbn [fst snd] in *.
+        apply N.eqb_eq in Hq. subst q.
+        assert (t' = t) by exact (nodup_fst_fun blk p t' t Hnd Hin' Hin). subst t'.
+        unfold alive_at in Hal. unfold alive_atb. lia.
+      * exfalso. pose proof (find_none _ _ F (p, t) Hin) as Hn. cbn [fst] in Hn.
+        rewrite N.eqb_refl in Hn. discriminate Hn.
+    + right. apply (IH Sc (S i0) b j p t Hnd Hs Hin).
+      replace (S i0 + j)%nat with (i0 + S j)%nat by lia. exact Hal.
+Qed.
+
+(** * Hand-traced tests of the mirror (see the report for the Go traces) *)
+
+(** [ent p t] is the entry [{pos: p, ttl: t}] (only there to get the number scopes right). *)
+Definition ent (p : N) (t : Z) : N * Z := (p, t).
+
+(* cache of 2 fills in block 0; in block 1 (12,1) replaces the first entry with a larger ttl,
+   which is (10,2); 10 is therefore never scheduled *)
+Example test_replace :
+  schedule 2 [[ent 10 3; ent 11 5]; [ent 12 1]; [ent 13 2]; []; []; []]
+  = [[11]; [12]; [13]; []; []; []]%N.
+Proof. vm_compute. reflexivity. Qed.
+
+(* position 2 outlives the recording (0 + 9 >= 3) and is never scheduled *)
+Example test_outlive :
+  schedule 3 [[ent 1 2; ent 2 9]; [ent 3 1]; []] = [[1]; [3]; []]%N.
+Proof. vm_compute. reflexivity. Qed.
+
+Example test_zero_memory :
+  schedule 0 [[ent 1 2; ent 2 9]; [ent 3 1]; []] = [[]; []; []].
+Proof. vm_compute. reflexivity. Qed.
+
+(* malformed input: duplicate position 5 and a ttl of 0.  Block 1: both (5,_) entries are
+   decremented; the first reaches 0, is scheduled at createHeights[5] = 0 and the key is deleted.
+   (7,0) enters with ttl 0, becomes -1 in block 2 and stays in the cache forever.  Block 2: the
+   second (5,_) entry reaches 0; its key is gone, so it is scheduled at height 0 (Go zero value). *)
+Example test_malformed :
+  schedule 3 [[ent 5 1; ent 5 2]; [ent 7 0]; []; []] = [[5; 5]; []; []; []]%N.
+Proof. vm_compute. reflexivity. Qed.
